@@ -439,7 +439,7 @@ pub fn run_hammer<W: std::io::Write>(seed: u64, rounds: u64, out: &mut W) {
     use std::time::{Duration, Instant};
     for r in 0..rounds {
         let mut rng = Rng::new(splitmix(seed.wrapping_mul(32452843).wrapping_add(r)));
-        let kind = ["watermark", "mono", "syncs", "drops", "racing"][(r % 5) as usize];
+        let kind = ["watermark", "mono", "syncs", "drops", "racing", "revive"][(r % 6) as usize];
         let millis = 30 + rng.below(50);
         let readers = 2 + rng.below(2) as usize;
         let stop = Arc::new(AtomicBool::new(false));
@@ -581,10 +581,80 @@ pub fn run_hammer<W: std::io::Write>(seed: u64, rounds: u64, out: &mut W) {
                     if lk != resident || lv != resident {
                         bad.push(format!("at quiescence {} key objects and {} value objects are alive for {} resident entries (entry_count {})", lk, lv, resident, cache.entry_count()));
                     }
+                    // everything invalidated: once maintenance has run nothing may stay alive (an entry
+                    // that sits in the map without its list nodes is never purged)
+                    std::thread::sleep(Duration::from_micros(50));
+                    cache.invalidate_all();
+                    cache.sync();
+                    cache.sync();
+                    let resident = cache.iter().count() as i64;
+                    let (lk, lv) = (KEY_LIVE.load(Ordering::SeqCst), VAL_LIVE.load(Ordering::SeqCst));
+                    if resident != 0 || lk != 0 || lv != 0 {
+                        bad.push(format!("after invalidate_all and two maintenance runs {} key objects and {} value objects are alive ({} entries iterated, entry_count {})", lk, lv, resident, cache.entry_count()));
+                    }
                     drop(cache);
                     let (lk, lv) = (KEY_LIVE.load(Ordering::SeqCst), VAL_LIVE.load(Ordering::SeqCst));
                     if lk != 0 || lv != 0 {
                         bad.push(format!("after the cache was dropped {} key objects and {} value objects are still alive", lk, lv));
+                    }
+                }
+            }
+            "revive" => {
+                // one thread loops: invalidate_all(); re-insert a few keys (updates of entries that
+                // are invalidated but still in the map); then looks them up and iterates: every key
+                // must be there with the value just written — nobody else writes or invalidates.
+                // The other threads only call sync(): maintenance sweeping the invalidated entries
+                // races with the updates that revive them (C03 / C16: no spurious loss, iteration
+                // yields every resident key once).
+                let mut b = SCache::<u64, u64>::builder();
+                if rng.chance(1, 2) {
+                    b = b.time_to_live(Duration::from_secs(60));
+                }
+                let cache = b.build_with_hasher(VBuildHasher(HashKind::Mix));
+                let nkeys = 2 + rng.below(6);
+                let mut hs = Vec::new();
+                for _ in 0..readers {
+                    let c = cache.clone();
+                    let st = Arc::clone(&stop);
+                    hs.push(std::thread::spawn(move || {
+                        let mut n = 0u64;
+                        while !st.load(Ordering::Relaxed) {
+                            c.sync();
+                            n += 1;
+                        }
+                        n
+                    }));
+                }
+                let t0 = Instant::now();
+                let mut round = 0u64;
+                while t0.elapsed() < Duration::from_millis(millis) && bad.is_empty() {
+                    round += 1;
+                    cache.invalidate_all();
+                    for k in 0..nkeys {
+                        cache.insert(k, round * 100 + k);
+                    }
+                    for k in 0..nkeys {
+                        let v = cache.get(&k);
+                        if v != Some(round * 100 + k) {
+                            bad.push(format!("round {}: get({}) returned {:?} right after insert({}, {}) had returned (no capacity, nothing else writes or invalidates)", round, k, v, k, round * 100 + k));
+                            break;
+                        }
+                    }
+                    if bad.is_empty() {
+                        let mut seen: Vec<(u64, u64)> = cache.iter().map(|e| (*e.key(), *e.value())).collect();
+                        seen.sort();
+                        let want: Vec<(u64, u64)> = (0..nkeys).map(|k| (k, round * 100 + k)).collect();
+                        if seen != want {
+                            bad.push(format!("round {}: iteration yielded {:?}, the cache holds {:?}", round, seen, want));
+                        }
+                    }
+                    ops += 3 * nkeys + 2;
+                }
+                stop.store(true, Ordering::Relaxed);
+                for h in hs {
+                    match h.join() {
+                        Ok(n) => ops += n,
+                        Err(_) => bad.push("a thread panicked inside the cache".into()),
                     }
                 }
             }
@@ -745,6 +815,28 @@ pub fn run_hammer<W: std::io::Write>(seed: u64, rounds: u64, out: &mut W) {
                             bad.push(format!("a thread panicked inside the cache: {}", msg.replace('\n', " ")));
                         }
                     }
+                }
+                if bad.is_empty() {
+                    // epilogue: one thread alone issues a burst far longer than the write channel and
+                    // never calls sync(): its own calls must run the maintenance (whatever the
+                    // threads that have left did to the housekeeper's flag, it must be free again)
+                    let c = cache.clone();
+                    let burst = std::thread::spawn(move || {
+                        for i in 0..1500u64 {
+                            c.insert(9_000_000 + i, i);
+                        }
+                    });
+                    let t0 = Instant::now();
+                    while !burst.is_finished() && t0.elapsed() < Duration::from_secs(8) {
+                        std::thread::sleep(Duration::from_millis(2));
+                    }
+                    if !burst.is_finished() {
+                        writeln!(out, "hammer-bad round={} kind={} after the threads had left, a burst of 1500 inserts by one thread (no sync() call) did not complete within 8 s", r, kind).unwrap();
+                        writeln!(out, "hammer round={} kind={} ops={} bad=1", r, kind, ops).unwrap();
+                        out.flush().unwrap();
+                        std::process::exit(0);
+                    }
+                    let _ = burst.join();
                 }
                 if bad.is_empty() {
                     let q = std::panic::catch_unwind(std::panic::AssertUnwindSafe(|| {
